@@ -157,6 +157,21 @@ def run(chk: core.Check):
             chk.count(("vector", shape, real_t.__name__))
             if not np.array_equal(out, ref):
                 chk.violation({"kind": "fastdiag_vector"}, f"vector_field_solve {shape} {real_t.__name__} differs from three scalar solves")
+            # the same through a REUSED solution array, with one right-hand side component identically zero / constant
+            for k in range(3):
+                rhs2 = rhs.copy()
+                rhs2[k] = 0 if k != 1 else 2.0
+                out2 = out.copy() + real_t(1.5)
+                s.vector_field_solve(solution_vector_field=out2, rhs_vector_field=rhs2)
+                ref2 = np.full_like(rhs, 9.0)
+                for j in range(3):
+                    s.solve(solution_field=ref2[j], rhs_field=rhs2[j])
+                chk.traces += 1
+                chk.count(("vector-degenerate", shape, real_t.__name__, k))
+                tol = 200 * float(np.finfo(real_t).eps) * max(shape) ** 2 * 4
+                if not np.array_equal(out2, ref2) or np.abs(out2[k]).max() > tol:
+                    chk.violation({"kind": "fastdiag_vector"}, f"vector_field_solve {shape} {real_t.__name__} with a null right-hand side in component {k} "
+                                  f"into a reused solution array: max |u_k| = {np.abs(out2[k]).max():.3g} (must be 0), equal to three scalar solves: {np.array_equal(out2, ref2)}")
     chk.assumptions += [
         "A is linear: symmetry / energy form / compatibility are checked on all pairs of unit impulses, hence for all real fields; "
         "uniqueness of the zero-mean solution follows from the energy form on the connected grid",
